@@ -211,6 +211,15 @@ async fn onbusy(case: Value, base: &str) -> Value {
 	let config = watchexec_cli::verif::make_config(&args, &state).unwrap();
 	// no file watching, no signal handling of this process: events are injected
 	config.pathset(Vec::<watchexec::WatchedPath>::new());
+	// the CLI's own filterer, as bin/watchexec installs it after make_config
+	match watchexec_cli::verif::WatchexecFilterer::new(&args).await {
+		Ok(f) => { config.filterer(f); }
+		Err(e) => return json!({"id": id, "error": format!("filterer: {e}")}),
+	}
+	// until the instance's signal source has registered its handlers a stray signal must not kill the harness
+	for sgn in [libc::SIGTERM, libc::SIGINT, libc::SIGHUP, libc::SIGUSR1] {
+		unsafe { libc::signal(sgn, libc::SIG_IGN) };
+	}
 	let wx = watchexec::Watchexec::with_config(config).unwrap();
 	let t0 = mono_ms();
 	let main = wx.main();
@@ -224,6 +233,13 @@ async fn onbusy(case: Value, base: &str) -> Value {
 		let now = mono_ms() - t0;
 		if at > now {
 			tokio::time::sleep(Duration::from_millis((at - now) as u64)).await;
+		}
+		if ev["k"] == "os_signal" {
+			// a real OS signal to this process: it goes through the signal source of the instance under test
+			let n = match ev["sig"].as_str().unwrap() { "Interrupt" => libc::SIGINT, "Hangup" => libc::SIGHUP, "User1" => libc::SIGUSR1, _ => libc::SIGTERM };
+			unsafe { libc::kill(libc::getpid(), n) };
+			sent.push(json!({"k": "os_signal", "t": mono_ms(), "ok": true, "sig": ev["sig"]}));
+			continue;
 		}
 		let e = match ev["k"].as_str().unwrap() {
 			"change" => Event { tags: vec![Tag::Path { path: dir.join("f.txt"), file_type: Some(FileType::File) }], metadata: Default::default() },
